@@ -29,7 +29,7 @@ OWN = ("F.unexpected-output", "F.missing-output", "F.wrong-message", "F.wrong-co
 
 
 def model(chk: Check, tier: str, prop: str = PROP):
-    cfg = "MC_Decoder_thorough.cfg" if tier == "thorough" else f"MC_Decoder_{prop}.cfg"
+    cfg = f"MC_Decoder_{prop}_thorough.cfg" if tier == "thorough" else f"MC_Decoder_{prop}.cfg"
     r = run_tlc("MC_Decoder", cfg, name="MC_Decoder", timeout=7200, heap="8g" if tier == "thorough" else "3g")
     for inv in r.violated:
         chk.violation(f"spec/{inv}", f"TLC: {inv} violated in MC_Decoder ({cfg})", {"tlc": r.error_text(80)})
